@@ -5,12 +5,12 @@ C13 — Every cache back-end is a faithful key-value map of states.
       is `kvOpsC kvCfgDrop` —, every state, every key string);
 (ii)  refinement: for every history (any length) the outputs of the back-end model equal those of the
       specification, `keys` up to order (`outsEq`): memory, file (any injective digest, any codec with
-      decode ∘ encode = id — XOR, Fernet), SQL (`delete_before_insert`), store-backed (all eight operations, `keys()` and
-      `clean()` included, for a cache path that does not start with `/`: `storec_refines_keys_partial`; with a leading `/`
-      the statement is false — `storec_refines_statement_false`: `to_path` strips the slash, `keys()`/`clean()` do not),
+      decode ∘ encode = id — XOR, Fernet), SQL (`delete_before_insert`), store-backed (`storec_refines`: all eight operations, `keys()` and
+      `clean()` included, any cache path — the constructor drops leading slashes; kept as given the statement is false with a
+      leading `/` — `storec_unnormalised_false`: `to_path` strips the slash, `keys()`/`clean()` do not),
       and congruence for `+`, the conditional wrappers and the proxy;
 (iii) XOR: involution and byte-wise hiding.
-Models: the code **as fixed by D2, D6a, D8, D9, D9b, D17, D18**.
+Models: the code **as fixed by D2, D6a, D8, D9, D9b, D17, D18** and by b0a69e7 / 39a373f (cache path).
 -/
 import LiquerProofs.Lemmas.CacheMemRef
 import LiquerProofs.Lemmas.CacheCombRef
@@ -110,20 +110,21 @@ theorem storec_refines_partial (c : StoreCCfg) (U : Str → Prop) (ok : CodecS c
     outsEq ((storeCOps c specOps).run fs h).2 ((kvOpsC kvCfgStore).run [] h).2 :=
   ((storec_sim c U ok paths).run h fs [] hinit hok).2
 
-/-- the full statement for the store-backed cache: also `keys()` and `clean()`.  **False as it stands**
-(`storec_refines_statement_false`): it allows cache paths that start with `/`; proved with that one extra hypothesis
-(`storec_refines_keys_partial`). -/
-def storec_refines_statement : Prop :=
+/-- the statement for a `StoreCache` whose constructor kept the path as given: also `keys()` and `clean()`.  **False**
+(`storec_unnormalised_false`): it allows cache paths that start with `/`; proved with that one extra hypothesis
+(`storec_refines_keys_partial`).  The constructor therefore drops leading slashes (`StoreCCfg.norm`, fixes b0a69e7 and 39a373f)
+and the full statement for the constructed cache is `storec_refines`. -/
+def storec_unnormalised_statement : Prop :=
   ∀ (c : StoreCCfg) (U : Str → Prop), CodecS c → PathsOK c U → ∀ (h : List CacheOp),
     HistOK (kvOpsC kvCfgStore) (fun kv op => op.hasData = true ∧ op.typeStable kv = true ∧ ∀ k, op.key? = some k → U k) [] h →
     outsEq ((storeCOps c specOps).run (storeCInit c specOps []) h).2 ((kvOpsC kvCfgStore).run [] h).2
 
 /-- **`StoreCache`** over the reference store, **all eight operations** (`keys()` and `clean()` included), every history from
 the freshly constructed cache, flat and nested scheme, keys whose paths are distinct and not directories of one another —
-the conclusion of `storec_refines_statement` under one extra hypothesis: **the cache path does not start with `/`**
+the conclusion of `storec_unnormalised_statement` under one extra hypothesis: **the cache path does not start with `/`**
 (the empty path is covered).
 
-Missing region: `c.path = '/' :: r`.  There the statement is false (`storec_refines_statement_false`, `storec_slash_keys`,
+Excluded region: `c.path = '/' :: r`.  There the statement is false (`storec_unnormalised_false`, `storec_slash_keys`,
 `storec_slash_clean`): `to_path` strips one leading `/` from `f"{self.path}/…"`, so the entries are stored under `r/…`,
 while `keys()` and `clean()` test the store keys against the unstripped `self.path + "/"`; `keys()` is then empty and
 `clean()` removes nothing.  The point operations are unaffected (`storec_refines_partial` has no such hypothesis).
@@ -142,7 +143,7 @@ theorem storec_refines_keys_from (c : StoreCCfg) (U : Str → Prop) (ok : CodecS
     outsEq ((storeCOps c specOps).run fs h).2 ((kvOpsC kvCfgStore).run kv h).2 :=
   ((storec_sim2 c U ok paths hpath).run h fs kv hinit hok).2
 
-/-! the full statement fails for a cache path with a leading `/` -/
+/-! the statement fails for a cache path kept with a leading `/` -/
 
 def demoState (q : String) : CState := { metadata := { query := q.toList, status := [], typeId := [] }, data := some [] }
 
@@ -163,8 +164,8 @@ theorem storec_slash_clean :
       [.res .true, .unit, .bool true] ∧
     ((kvOpsC kvCfgStore).run [] [.store (demoState "a"), .clean, .contains "a".toList]).2 = [.res .true, .unit, .bool false] := by decide
 
-/-- the negation of `storec_refines_statement` -/
-theorem storec_refines_statement_false : ¬ storec_refines_statement := by
+/-- the negation of `storec_unnormalised_statement`: why the constructor has to normalise the path -/
+theorem storec_unnormalised_false : ¬ storec_unnormalised_statement := by
   intro hs
   have paths : PathsOK (slashCfg false) (fun k => k = "a".toList) :=
     ⟨fun a b ha hb _ => ha.trans hb.symm, fun a b ha hb => by
@@ -173,6 +174,51 @@ theorem storec_refines_statement_false : ¬ storec_refines_statement := by
     ⟨⟨rfl, rfl, fun k hk => (Option.some.inj hk).symm⟩, ⟨rfl, rfl, fun k hk => by cases hk⟩, trivial⟩
   rw [storec_slash_keys.1, storec_slash_keys.2] at h
   exact absurd h.2.1.length_eq (by decide)
+
+theorem normPath_no_slash (p r : Str) : StoreC.normPath p ≠ '/' :: r := by
+  induction p with
+  | nil => simp [StoreC.normPath]
+  | cons a t ih =>
+    by_cases ha : a = '/'
+    · subst ha; simpa [StoreC.normPath] using ih
+    · rw [StoreC.normPath.eq_2 _ (by intro r' h; cases h; exact ha rfl)]
+      intro h; cases h; exact ha rfl
+
+/-- **`StoreCache(store, path, flat)` as constructed** (`storeCacheOps` / `storeCacheNew`: the constructor keeps
+`path.lstrip("/")`) over the reference store, **all eight operations** (`keys()` and `clean()` included), every history from
+the freshly constructed cache, flat and nested scheme, **any cache path** (empty, with any number of leading slashes), keys
+whose paths are distinct and not directories of one another: the outputs are those of the key-value specification. -/
+theorem storec_refines (c : StoreCCfg) (U : Str → Prop) (ok : CodecS c.norm) (paths : PathsOK c.norm U) (h : List CacheOp)
+    (hok : HistOK (kvOpsC kvCfgStore) (fun kv op => op.hasData = true ∧ op.typeStable kv = true ∧ ∀ k, op.key? = some k → U k) [] h) :
+    outsEq ((storeCacheOps c specOps).run (storeCacheNew c specOps []) h).2 ((kvOpsC kvCfgStore).run [] h).2 :=
+  storec_refines_keys_partial c.norm U ok paths (fun r => normPath_no_slash c.path r) h hok
+
+/-- the codec laws do not depend on the path; a path without a leading slash is kept as it is -/
+theorem codecS_norm (c : StoreCCfg) (ok : CodecS c) : CodecS c.norm := ⟨ok.1, ok.2⟩
+
+theorem norm_of_no_slash (c : StoreCCfg) (h : ∀ r, c.path ≠ '/' :: r) : c.norm = c := by
+  cases c with
+  | mk path flat hh encM decM serD deD =>
+    simp only [StoreCCfg.norm, StoreCCfg.mk.injEq, and_true]
+    cases path with
+    | nil => rfl
+    | cons a t =>
+      by_cases ha : a = '/'
+      · subst ha; exact absurd rfl (h t)
+      · exact StoreC.normPath.eq_2 _ (by intro r' h'; cases h'; exact ha rfl)
+
+/-- the constructed cache at `/c` and at `//c` is the cache at `c` -/
+theorem storec_slash_same (flat : Bool) :
+    (slashCfg flat).norm = { Witness.storeCfg flat with path := "c".toList } ∧
+    ({ Witness.storeCfg flat with path := "//c".toList } : StoreCCfg).norm = { Witness.storeCfg flat with path := "c".toList } := by
+  constructor <;> simp [slashCfg, StoreCCfg.norm, StoreC.normPath]
+
+/-- `StoreCache(store, "/c")` as constructed: after `store(a)`, `clean()` removes the entry (compare `storec_slash_clean`) -/
+theorem storec_slash_fixed :
+    ((storeCacheOps (slashCfg false) specOps).run (storeCacheNew (slashCfg false) specOps []) [.store (demoState "a"), .contains "a".toList, .clean, .contains "a".toList]).2 =
+      [.res .true, .bool true, .unit, .bool false] := by
+  rw [storeCacheOps, storeCacheNew, (storec_slash_same false).1]
+  decide
 
 /-- both path schemes are injective on all key strings -/
 theorem storec_paths_injective (c : StoreCCfg) (c0 : Char) (r : Str) (hp : c.path = c0 :: r) (hc : c0 ≠ '/')
@@ -285,6 +331,5 @@ end Liquer.C13
 
 -- OBLIGATIONS: Liquer.C13.kv_store_get Liquer.C13.kv_remove Liquer.C13.kv_clean Liquer.C13.kv_meta_only_no_data Liquer.C13.kv_meta_data Liquer.C13.kv_frame Liquer.C13.kvOps_is_instance
 -- OBLIGATIONS: Liquer.C13.memc_refines Liquer.C13.filec_refines Liquer.C13.sqlc_refines Liquer.C13.storec_refines_partial Liquer.C13.storec_paths_injective Liquer.C13.storec_flat_pathsOK Liquer.C13.storec_nested_confusion Liquer.C13.storec_nested_normalised_not_injective
--- OBLIGATIONS: Liquer.C13.storec_refines_keys_partial Liquer.C13.storec_refines_keys_from Liquer.C13.storec_slash_keys Liquer.C13.storec_slash_clean Liquer.C13.storec_refines_statement_false
+-- OBLIGATIONS: Liquer.C13.storec_refines_keys_partial Liquer.C13.storec_refines_keys_from Liquer.C13.storec_slash_keys Liquer.C13.storec_slash_clean Liquer.C13.storec_unnormalised_false Liquer.C13.storec_refines Liquer.C13.storec_slash_same Liquer.C13.storec_slash_fixed Liquer.C13.norm_of_no_slash
 -- OBLIGATIONS: Liquer.C13.combine_refines Liquer.C13.cond_refines Liquer.C13.proxy_refines Liquer.C13.no_plus_mem_refines Liquer.C13.mem_if_refines Liquer.C13.xor_involutive Liquer.C13.xor_hides
--- STATEMENT-ONLY: Liquer.C13.storec_refines_statement
